@@ -85,12 +85,14 @@ def run(case):
                 ps = list(ir["params"].values())
                 sig["typ_classes"] = ",".join(sorted({A.tclass(p.get("typ")) for p in ps}))
                 sig["default_kinds"] = ",".join(sorted({A.vkind(O.normdefault(p["default"]) if "default" in p else O.ABSENT) for p in ps}))
+                sig.update(A.str_default_features(ir))
                 viol.append(dict(sig=sig, expected="hop completes", observed=str(e)[:300], detail=dict(path=newpath, source_state=F.ir_to_json(strip_internal(ir))), case=dict(ir=case["ir"], path=newpath)))
                 continue
             # `_internal` (original docstring, body) is carried along in the live object - real chains hand the parser's result straight to the
             # next emitter - but is not part of the compared interface; it is part of the state key so that merged states have equal futures
             hop_viol = list(map(abstract_typ, O.compare(ir, back, RULES, ctx)))
             for v in hop_viol:
+                v["sig"].update(A.str_default_features(ir))
                 v["detail"] = dict(path=newpath, source_state=repr(O.project(ir)[0]), text=text)
                 v["case"] = dict(ir=case["ir"], path=newpath)
                 viol.append(v)
@@ -142,6 +144,10 @@ def abstract_typ(v):
     return v
 
 
+def dot_default(ir):
+    return any(isinstance(p.get("default"), str) and "." in p["default"] and not p["default"].startswith("```") for p in ir["params"].values())
+
+
 def O_key(o):
     import json
 
@@ -162,10 +168,13 @@ def replay_case(case):
             ps = list(ir["params"].values())
             sig["typ_classes"] = ",".join(sorted({A.tclass(p.get("typ")) for p in ps}))
             sig["default_kinds"] = ",".join(sorted({A.vkind(O.normdefault(p["default"]) if "default" in p else O.ABSENT) for p in ps}))
+            sig.update(A.str_default_features(ir))
             viol.append(dict(sig=sig, expected="hop completes", observed=str(e)[:300]))
             break
         if i == len(case["path"]) - 1:
-            viol.extend(map(abstract_typ, O.compare(ir, back, RULES, ctx)))
+            for v in map(abstract_typ, O.compare(ir, back, RULES, ctx)):
+                v["sig"].update(A.str_default_features(ir))
+                viol.append(v)
         ir = back
     return dict(outcome="replay", transitions=len(case["path"]), violations=viol)
 
